@@ -286,9 +286,72 @@ def devStrayExprStmt (f : Failure) : Bool :=
   | some (.node "program" _ ks) => hasStray (ks.filter (fun k => !isComment k))
   | _ => false
 
+mutual
+/-- an integer literal beyond 2^53 (where float64 no longer holds every integer) somewhere in the tree -/
+def hasBigInt : T → Bool
+  | .node "num" ["i", _, v] _ =>
+    match v.toInt? with
+    | some x => x.natAbs > 9007199254740992
+    | none => false
+  | .node _ _ ks => hasBigIntL ks
+def hasBigIntL : List T → Bool
+  | [] => false
+  | k :: ks => hasBigInt k || hasBigIntL ks
+end
+
+mutual
+/-- a property call `.field(name, <integer beyond 2^53>)` (the field default of a |default() node) -/
+def hasBigIntFieldDefault : T → Bool
+  | .node "func" [_, name, _] ks => (name == "field" && hasBigIntL ks) || hasBigIntFieldDefaultL ks
+  | .node _ _ ks => hasBigIntFieldDefaultL ks
+def hasBigIntFieldDefaultL : List T → Bool
+  | [] => false
+  | k :: ks => hasBigIntFieldDefault k || hasBigIntFieldDefaultL ks
+end
+
+/-- `default-int-field`: DefaultNode.UnmarshalJSON lets encoding/json decode the field defaults into
+`map[string]interface{}`, so an integer default comes back from pipeline JSON as a float64; beyond 2^53 the
+property JSON of the decoded pipeline shows another number (9223372036854775807 -> 9223372036854776000). -/
+def devDefaultIntField (f : Failure) : Bool :=
+  f.clause == "pipeline-identical" && f.detail == "pjson:properties" &&
+  match f.orig with
+  | some o => hasBigIntFieldDefault o
+  | none => false
+
+/-- a literal that denotes the zero value of its type: 0, 0.0, -0.0, FALSE, '' -/
+def isZeroLit : T → Bool
+  | .node "num" ["i", _, v] _ => v == "0"
+  | .node "num" ["f", v] _ => v == "0.0" || v == "-0.0"
+  | .node "un" [op] [.node "num" ["i", _, v] _] => op == "-" && v == "0"
+  | .node "un" [op] [.node "num" ["f", v] _] => op == "-" && v == "0.0"
+  | .node "bool" [b] _ => b == "0"
+  | .node "str" [_, l] _ => l == "%"
+  | _ => false
+
+mutual
+/-- a property call `.field(name, <zero>)` / `.tag(name, '')` (the defaults of a |default() node) -/
+def hasZeroDefault : T → Bool
+  | .node "func" [_, name, _] ks =>
+    ((name == "field" || name == "tag") && (match ks with | [_, v] => isZeroLit v | _ => false)) || hasZeroDefaultL ks
+  | .node _ _ ks => hasZeroDefaultL ks
+def hasZeroDefaultL : List T → Bool
+  | [] => false
+  | k :: ks => hasZeroDefault k || hasZeroDefaultL ks
+end
+
+/-- `default-zero-field`: pipeline/tick renders the defaults of a |default() node with `Dot`, which drops zero-valued
+arguments: `.field('x', 0.0)` is rendered `.field('x')`, a script that does not build. -/
+def devDefaultZeroField (f : Failure) : Bool :=
+  f.clause == "pipeline-identical" && f.detail == "ptick-dot:no-pipeline" &&
+  match f.orig with
+  | some o => hasZeroDefault o
+  | none => false
+
 def deviationOf (f : Failure) : Option String :=
   if devIntMin64 f then some "int-min64"
   else if devStrayExprStmt f then some "stray-expr-statement"
+  else if devDefaultIntField f then some "default-int-field"
+  else if devDefaultZeroField f then some "default-zero-field"
   else none
 
 /-- Runs the spec over a history. Returns the keys of the recorded deviations met (the history is then judged
